@@ -346,14 +346,14 @@ int main(int argc, char **argv)
     H.property = "C11";
     H.jobs = [](const vf::Args &a) {
         if (a.thorough())
-            return std::vector<std::string>{"lt-k4-c8", "gt-k4-c8", "lt-k5-c7", "gt-k3-c9"};
-        return std::vector<std::string>{"lt-k4-c7", "gt-k4-c7"};
+            return std::vector<std::string>{"lt-k4-c9", "gt-k4-c8", "lt-k5-c8", "gt-k3-c10", "lt-k3-c10"};
+        return std::vector<std::string>{"lt-k4-c8", "gt-k4-c8", "lt-k5-c7", "gt-k3-c9"};
     };
     H.run = [](const std::string &job, const vf::Args &a, vf::Report &r) {
         Sys s;
-        configure(s, job, a.thorough());
+        configure(s, job, true);  // the richer op set in both tiers (seconds)
         vf::HBFS<Sys> bfs(s, r, a);
-        bfs.replayExtra = "\"job\":" + vf::jesc(job) + ",\"thorough\":" + (a.thorough() ? "true" : "false");
+        bfs.replayExtra = "\"job\":" + vf::jesc(job) + ",\"thorough\":true";
         bfs.run();
         r.rule = "BFS over op histories (insert, insert(vector), pop, remove(handle), update(handle), silent key change+rebuild, "
                  "buildFrom, clear) on the real BinaryHeap; state = private key array; every state: size/top/handle positions/"
